@@ -406,6 +406,25 @@ func c13Repeat(c *rep.Ctx) {
 			}
 		}},
 		{"OutputFromRoot of a non-root node", false, func() { gtree.OutputFromRoot(&bytes.Buffer{}, good().Add("z")) }},
+		{"dry run (Output route) to a failing writer", false, func() {
+			gtree.OutputFromMarkdown(brokenWriter{}, strings.NewReader(okDoc), gtree.WithDryRun(), gtree.WithFileExtensions([]string{"b"}))
+		}},
+		{"dry run (MkdirFromRoot) to a writer that takes half of the report", false, func() {
+			old := color.Output
+			color.Output = &failWriter{failAt: 1, short: true}
+			gtree.MkdirFromRoot(good(), gtree.WithDryRun(), gtree.WithFileExtensions([]string{"b"}))
+			color.Output = old
+		}},
+		{"JSON / YAML / TOML From-Root output to a writer that takes half of a write", false, func() {
+			gtree.OutputFromRoot(&failWriter{failAt: 1, short: true}, good(), gtree.WithEncodeJSON())
+			gtree.OutputFromRoot(&failWriter{failAt: 1, short: true}, good(), gtree.WithEncodeYAML())
+			gtree.OutputFromRoot(&failWriter{failAt: 2, short: true}, good(), gtree.WithEncodeTOML())
+		}},
+		{"text output to a writer that takes half of a write", false, func() {
+			gtree.OutputFromRoot(&failWriter{failAt: 2, short: true}, good())
+			gtree.OutputFromMarkdown(&failWriter{failAt: 2, short: true}, strings.NewReader(okDoc))
+			gtree.OutputFromMarkdown(&failWriter{failAt: 1, short: true}, strings.NewReader(okDoc), ms())
+		}},
 	}
 	hist := []hop{{K: "N", T: 0, Name: "r"}, {K: "A", T: 0, Node: 0, Name: "a"}, {K: "A", T: 0, Node: 1, Name: "b"}, {K: "A", T: 0, Node: 0, Name: "b"}}
 	for _, cl := range calls {
@@ -440,6 +459,99 @@ func c13Repeat(c *rep.Ctx) {
 			p := guardMaybeMassive(true, func() { out, err, _ = sut.Output(c13MdDoc, ms()) })
 			if p != "" || err != nil || out != c13MdWant {
 				c.Violation("C13|result-depends-on-earlier-calls|massive-markdown", fmt.Sprintf("%s: massive OutputFromMarkdown gives %q err=%v %s", desc, out, err, p), R, nil)
+			}
+		}
+	}
+}
+
+// c13SharedOptions: option values belong to the caller and may be used for any number of calls: the same []Option
+// (and the same extension slice behind it) is handed to two calls in a row; the second must behave as the first did
+// and as the tree predicts.
+func c13SharedOptions(c *rep.Ctx) {
+	type res struct{ out, err string }
+	mkTree := func() *gtree.Node { r := gtree.NewRoot("r"); r.Add("a").Add("b"); r.Add("b"); r.Add("c.go"); return r }
+	const doc = "- r\n  - a\n    - b\n  - b\n  - c.go\n"
+	exts := []string{".go", "b", ".go", "a", "b"}
+	sets := []struct {
+		name string
+		mk   func() []gtree.Option
+	}{
+		{"massive(context)", func() []gtree.Option { return []gtree.Option{gtree.WithMassive(context.Background())} }},
+		{"massive(nil)", func() []gtree.Option { return []gtree.Option{gtree.WithMassive(nil)} }},
+		{"extensions with repeats", func() []gtree.Option { return []gtree.Option{gtree.WithFileExtensions(exts)} }},
+		{"massive + extensions + dry run", func() []gtree.Option {
+			return []gtree.Option{gtree.WithMassive(context.Background()), gtree.WithFileExtensions(exts), gtree.WithDryRun()}
+		}},
+		{"dry run + extensions", func() []gtree.Option { return []gtree.Option{gtree.WithDryRun(), gtree.WithFileExtensions(exts)} }},
+		{"custom branches + JSON", func() []gtree.Option { return append(sut.FmtOpts(fmtTuples[1]), gtree.WithEncodeJSON()) }},
+		{"YAML", func() []gtree.Option { return []gtree.Option{gtree.WithEncodeYAML()} }},
+	}
+	ops := []struct {
+		name string
+		f    func(opts []gtree.Option, target string) res
+	}{
+		{"OutputFromRoot", func(o []gtree.Option, _ string) res {
+			var b bytes.Buffer
+			err := gtree.OutputFromRoot(&b, mkTree(), o...)
+			return res{b.String(), fmt.Sprint(err)}
+		}},
+		{"OutputFromMarkdown", func(o []gtree.Option, _ string) res {
+			var b bytes.Buffer
+			err := gtree.OutputFromMarkdown(&b, strings.NewReader(doc), o...)
+			return res{b.String(), fmt.Sprint(err)}
+		}},
+		{"WalkFromRoot", func(o []gtree.Option, _ string) res {
+			var rows []string
+			err := gtree.WalkFromRoot(mkTree(), func(w *gtree.WalkerNode) error { rows = append(rows, w.Row()+"|"+w.Path()); return nil }, o...)
+			return res{strings.Join(rows, "\n"), fmt.Sprint(err)}
+		}},
+		{"MkdirFromRoot", func(o []gtree.Option, t string) res {
+			var b bytes.Buffer
+			old := color.Output
+			color.Output = &b
+			err := gtree.MkdirFromRoot(mkTree(), append(o, gtree.WithTargetDir(t))...)
+			color.Output = old
+			return res{b.String() + fmt.Sprint(fsx.Snapshot(t).Kinds()), fmt.Sprint(err)}
+		}},
+		{"VerifyFromMarkdown", func(o []gtree.Option, t string) res {
+			err := gtree.VerifyFromMarkdown(strings.NewReader(doc), append(o, gtree.WithTargetDir(t))...)
+			return res{"", sortLines(strings.ReplaceAll(fmt.Sprint(err), t, "<T>"))} // (paths are listed in map order)
+		}},
+	}
+	for _, set := range sets {
+		for _, op1 := range ops {
+			for _, op2 := range ops {
+				if !c.Take() || c.Expired() {
+					continue
+				}
+				c.StateN(1)
+				c.Inc("shared_option_histories")
+				extsBefore := strings.Join(exts, "\x00")
+				massive := strings.Contains(set.name, "massive")
+				var fresh, second res
+				pan := guardMaybeMassive(massive, func() {
+					j0, j1, j2 := fsx.NewJail("c13s"), fsx.NewJail("c13s"), fsx.NewJail("c13s")
+					defer j0.Remove()
+					defer j1.Remove()
+					defer j2.Remove()
+					fresh = op2.f(set.mk(), j0.Target) // op2 with option values of its own
+					shared := set.mk()
+					op1.f(shared, j1.Target)
+					second = op2.f(shared, j2.Target) // op2 with the values op1 has used
+				})
+				c.Eval()
+				desc := fmt.Sprintf("options {%s}: %s, then %s with the same option values", set.name, op1.name, op2.name)
+				if pan != "" {
+					c.Violation("C13|shared-options|crashed-or-hung", desc+": "+pan, 1, nil)
+					continue
+				}
+				if second != fresh {
+					c.Violation("C13|shared-options|second-call-differs|"+op2.name, fmt.Sprintf("%s\nwith fresh values: %q err=%s\nwith used values:  %q err=%s", desc, fresh.out, fresh.err, second.out, second.err), 1, nil)
+				}
+				if strings.Join(exts, "\x00") != extsBefore {
+					c.Violation("C13|shared-options|callers-slice-modified", fmt.Sprintf("%s: the extension list is now %q", desc, exts), 1, nil)
+					exts = strings.Split(extsBefore, "\x00")
+				}
 			}
 		}
 	}
@@ -582,6 +694,7 @@ func init() {
 			rec(nil, &st{}, L)
 		}
 		c13Repeat(c)
+		c13SharedOptions(c)
 		c.R.Nontrivial = c.R.States
 		if c13Jail != nil {
 			c13Jail.Remove()
